@@ -1,5 +1,8 @@
 import GopatchModel.FileM
 namespace Gopatch.C04
+open Gopatch
+
+/-! ### helper facts about `splits` and `firstSome` -/
 
 /-- every way of cutting the list is tried -/
 theorem splits_complete {α} : ∀ (a b : List α), (a, b) ∈ splits (a ++ b)
@@ -19,5 +22,201 @@ theorem splits_sound {α} : ∀ (l a b : List α), (a, b) ∈ splits l → a ++ 
       · cases h; rfl
       · cases he
         simp [splits_sound xs a' b' hm]
+
+/-- `splits` lists the cuts by increasing length of the skipped prefix -/
+theorem splits_ordered {α} : ∀ (l : List α) (l1 l2 : List (List α × List α)) (x : List α × List α),
+    splits l = l1 ++ x :: l2 → ∀ y ∈ l1, y.1.length < x.1.length
+  | [], l1, l2, x, h => by
+      simp only [splits] at h
+      cases l1 with
+      | nil => intro y hy; simp at hy
+      | cons a as =>
+        simp only [List.cons_append, List.cons.injEq] at h
+        have := h.2
+        cases as <;> simp at this
+  | a :: as, l1, l2, x, h => by
+      simp only [splits] at h
+      cases l1 with
+      | nil => intro y hy; simp at hy
+      | cons b bs =>
+        simp only [List.cons_append, List.cons.injEq] at h
+        obtain ⟨hb, hrest⟩ := h
+        -- x is in the mapped tail, so its prefix is non-empty; elements of bs are mapped too
+        have hmap : (splits as).map (fun p => (a :: p.1, p.2)) = bs ++ x :: l2 := hrest
+        obtain ⟨m1, rest, hm1, hbs, hrest2⟩ := List.map_eq_append_iff.1 hmap
+        obtain ⟨x0, m2, hm2, hx0, hl2⟩ := List.map_eq_cons_iff.1 hrest2
+        subst hbs hx0
+        intro y hy
+        rcases List.mem_cons.1 hy with rfl | hy
+        · subst hb; simp
+        · obtain ⟨y0, hy0, rfl⟩ := List.mem_map.1 hy
+          have := splits_ordered as m1 m2 x0 (by rw [hm1, hm2]) y0 hy0
+          simp; omega
+
+theorem firstSome_some {α β} (f : α → Option β) : ∀ (l : List α) (b : β),
+    firstSome l f = some b → ∃ l1 a l2, l = l1 ++ a :: l2 ∧ f a = some b ∧ ∀ x ∈ l1, f x = none
+  | [], b, h => by simp [firstSome] at h
+  | a :: as, b, h => by
+      unfold firstSome at h
+      cases hf : f a with
+      | some b' =>
+        simp only [hf] at h
+        cases h
+        exact ⟨[], a, as, rfl, hf, by simp⟩
+      | none =>
+        simp only [hf] at h
+        obtain ⟨l1, a', l2, hl, ha, hn⟩ := firstSome_some f as b h
+        refine ⟨a :: l1, a', l2, by simp [hl], ha, ?_⟩
+        intro x hx
+        rcases List.mem_cons.1 hx with rfl | hx
+        · exact hf
+        · exact hn x hx
+
+theorem firstSome_none {α β} (f : α → Option β) : ∀ (l : List α),
+    firstSome l f = none ↔ ∀ a ∈ l, f a = none
+  | [] => by simp [firstSome]
+  | a :: as => by
+      unfold firstSome
+      cases hf : f a with
+      | some b => simp [hf]
+      | none => simp [hf, firstSome_none f as]
+
+theorem matchSeq_nil (mt : Meta) (e : String) (gs : List V) (d : Data) :
+    matchSeq mt e [] gs d = if gs.isEmpty then some d else none := by
+  rw [matchSeq.eq_def]
+
+theorem matchSeq_cons (mt : Meta) (e : String) (p : V) (ps gs : List V) (d : Data) :
+    matchSeq mt e (p :: ps) gs d =
+      match dotsKeyOf e p with
+      | some k => firstSome (splits gs) (fun sr => matchSeq mt e ps sr.2 (d.pushDots k sr.1))
+      | none => match gs with
+          | [] => none
+          | g :: gs' => (matchV mt p g d).bind (matchSeq mt e ps gs') := by
+  rw [matchSeq.eq_def]
+  rfl
+
+/-! ### the specification: some choice of runs makes every explicit element match in order -/
+
+/-- `Sol mt e ps gs d d'`: the pattern list `ps` (explicit elements and elisions) matches the
+list `gs` for *some* choice of the runs the elisions stand for, every explicit element matching
+in order with the bindings threaded from `d` to `d'`.  Explicit elements are related by the
+element matcher itself; elisions stand for arbitrary runs. -/
+inductive Sol (mt : Meta) (e : String) : List V → List V → Data → Data → Prop
+  | nil (d : Data) : Sol mt e [] [] d d
+  | dots (p : V) (k : Nat) (ps run rest : List V) (d d' : Data) :
+      dotsKeyOf e p = some k → Sol mt e ps rest (d.pushDots k run) d' → Sol mt e (p :: ps) (run ++ rest) d d'
+  | elem (p g : V) (ps gs : List V) (d d1 d' : Data) :
+      dotsKeyOf e p = none → matchV mt p g d = some d1 → Sol mt e ps gs d1 d' → Sol mt e (p :: ps) (g :: gs) d d'
+
+/-- **Soundness.** Whatever the list matcher accepts is a solution. -/
+theorem matchSeq_sound (mt : Meta) (e : String) : ∀ (ps gs : List V) (d d' : Data),
+    matchSeq mt e ps gs d = some d' → Sol mt e ps gs d d'
+  | [], gs, d, d', h => by
+      rw [matchSeq_nil] at h
+      cases gs with
+      | nil => simp at h; subst h; exact Sol.nil d
+      | cons g gs => simp at h
+  | p :: ps, gs, d, d', h => by
+      cases hk : dotsKeyOf e p with
+      | some k =>
+        simp only [matchSeq_cons, hk] at h
+        obtain ⟨l1, a, l2, hl, ha, _⟩ := firstSome_some _ _ _ h
+        have hmem : a ∈ splits gs := by rw [hl]; simp
+        have hcat := splits_sound gs a.1 a.2 hmem
+        rw [← hcat]
+        exact Sol.dots p k ps a.1 a.2 d d' hk (matchSeq_sound mt e ps a.2 _ d' ha)
+      | none =>
+        cases gs with
+        | nil => simp [matchSeq_cons, hk] at h
+        | cons g gs' =>
+          simp only [matchSeq_cons, hk, Option.bind_eq_some_iff] at h
+          obtain ⟨d1, h1, h2⟩ := h
+          exact Sol.elem p g ps gs' d d1 d' hk h1 (matchSeq_sound mt e ps gs' d1 d' h2)
+
+/-- **Completeness.** If some choice of runs makes the explicit elements match in order, the
+list matcher succeeds (it backtracks over the runs; before the `fix:` commit it did not). -/
+theorem matchSeq_complete (mt : Meta) (e : String) (ps gs : List V) (d d' : Data)
+    (h : Sol mt e ps gs d d') : ∃ d'', matchSeq mt e ps gs d = some d'' := by
+  induction h with
+  | nil d => exact ⟨d, by rw [matchSeq_nil]; simp⟩
+  | dots p k ps run rest d d' hk _ ih =>
+    obtain ⟨d2, h2⟩ := ih
+    simp only [matchSeq_cons, hk]
+    cases hfs : firstSome (splits (run ++ rest)) (fun sr => matchSeq mt e ps sr.2 (d.pushDots k sr.1)) with
+    | some b => exact ⟨b, rfl⟩
+    | none =>
+      rw [firstSome_none] at hfs
+      have := hfs (run, rest) (splits_complete run rest)
+      simp only [h2] at this
+      cases this
+  | elem p g ps gs d d1 d' hk h1 _ ih =>
+    obtain ⟨d2, h2⟩ := ih
+    exact ⟨d2, by simp [matchSeq_cons, hk, h1, h2]⟩
+
+/-- A pattern with elisions matches a list exactly when some choice of runs makes every
+explicit element match in order. -/
+theorem matchSeq_iff (mt : Meta) (e : String) (ps gs : List V) (d : Data) :
+    (∃ d', matchSeq mt e ps gs d = some d') ↔ ∃ d', Sol mt e ps gs d d' :=
+  ⟨fun ⟨d', h⟩ => ⟨d', matchSeq_sound mt e ps gs d d' h⟩,
+   fun ⟨d', h⟩ => matchSeq_complete mt e ps gs d d' h⟩
+
+/-- **Shortest run, left to right.** When the pattern starts with an elision, the matcher
+commits to a run for it such that the rest matches, and no shorter run allows the rest to
+match at all (by soundness/completeness applied to the rest, "does not match" means that no
+choice of the remaining runs works). Applied recursively to the rest this is the
+lexicographically least choice of runs. -/
+theorem first_dots_shortest (mt : Meta) (e : String) (p : V) (k : Nat) (ps gs : List V) (d d' : Data)
+    (hk : dotsKeyOf e p = some k) (h : matchSeq mt e (p :: ps) gs d = some d') :
+    ∃ run rest, run ++ rest = gs ∧ matchSeq mt e ps rest (d.pushDots k run) = some d' ∧
+      ∀ run' rest', run' ++ rest' = gs → run'.length < run.length →
+        matchSeq mt e ps rest' (d.pushDots k run') = none := by
+  simp only [matchSeq_cons, hk] at h
+  obtain ⟨l1, a, l2, hl, ha, hn⟩ := firstSome_some _ _ _ h
+  have hmem : a ∈ splits gs := by rw [hl]; simp
+  refine ⟨a.1, a.2, splits_sound gs a.1 a.2 hmem, ha, ?_⟩
+  intro run' rest' hcat hlen
+  have hm' : (run', rest') ∈ splits gs := by rw [← hcat]; exact splits_complete run' rest'
+  rw [hl] at hm'
+  rcases List.mem_append.1 hm' with h1 | h2
+  · exact hn _ h1
+  · rcases List.mem_cons.1 h2 with h3 | h4
+    · have : run' = a.1 := by rw [← h3]
+      rw [this] at hlen; omega
+    · -- elements after `a` have strictly longer prefixes
+      obtain ⟨m1, m2, hm⟩ := List.append_of_mem h4
+      have hord := splits_ordered gs (l1 ++ a :: m1) m2 (run', rest') (by rw [hl, hm]; simp)
+      have := hord a (by simp)
+      simp at this; omega
+
+/-! ### the behaviour before the `fix:` commit, refuted -/
+
+/-- the list matcher as it was: each elision commits to the first start at which the *next
+section* (the explicit elements up to the following elision) matches; an empty section swallows
+the rest -/
+def greedySection (m : Nat → Nat → Bool) : List Nat → List Nat → Option (List Nat)
+  | [], gs => some gs
+  | p :: ps, g :: gs => if m p g then greedySection m ps gs else none
+  | _ :: _, [] => none
+
+def greedyFind (m : Nat → Nat → Bool) (sec : List Nat) : Nat → List Nat → Option (List Nat)
+  | 0, _ => none
+  | fuel + 1, gs =>
+      if sec.isEmpty then some []
+      else match greedySection m sec gs with
+        | some rest => some rest
+        | none => match gs with
+            | [] => none
+            | _ :: gs' => greedyFind m sec fuel gs'
+
+def greedy (m : Nat → Nat → Bool) : List (List Nat) → List Nat → Bool
+  | [], gs => gs.isEmpty
+  | sec :: secs, gs => match greedyFind m sec (gs.length + 1) gs with
+      | some rest => greedy m secs rest
+      | none => false
+
+/-- `foo(..., x)` against `foo(x, y, x)` (elements as numbers, 1 = x, 2 = y): the former matcher
+said "no match" although the run `x, y` is a solution. -/
+theorem greedy_incomplete :
+    greedy (fun p g => p == g) [[1]] [1, 2, 1] = false ∧ [1, 2] ++ [1] = [1, 2, 1] := by decide
 
 end Gopatch.C04
